@@ -209,6 +209,17 @@ class Ctx:
         return results
 
 
+def raised_in_code_under_test(e: BaseException) -> bool:
+    """True iff the innermost frames of the exception's traceback lie in the tree under test (torchdata/...)."""
+    import traceback
+    frames = traceback.extract_tb(e.__traceback__)
+    root = os.path.join(os.path.realpath(REPO), "torchdata") + os.sep
+    mine = os.path.dirname(os.path.dirname(os.path.realpath(__file__))) + os.sep
+    if not frames or os.path.realpath(frames[-1].filename).startswith(mine):
+        return False  # raised by the harness itself (or by one of its datasets / callbacks)
+    return any(os.path.realpath(f.filename).startswith(root) for f in frames)
+
+
 def _pmap_worker(args):
     fn, prop, tier, seed, escalated, chunk = args
     sub = Ctx(prop, tier, seed)
@@ -217,10 +228,18 @@ def _pmap_worker(args):
     for it in chunk:
         try:
             out.append(fn(sub, it))
-        except Exception as e:  # machinery error inside a case: surface it as a note, not a verdict
+        except Exception as e:
             import traceback
-            sub.note("internal error in case: " + traceback.format_exc()[-600:])
-            sub.hist["internal_errors"] = sub.hist.get("internal_errors", 0) + 1
+            tb = traceback.format_exc()
+            if raised_in_code_under_test(e):
+                # the harness did not expect the API to raise here: its picture of the code no longer holds
+                try:
+                    sub.diverge("uncaught_exception", {"case": it}, "the code under test raised where the harness expects no exception: " + tb[-900:])
+                except Exception:
+                    sub.diverge("uncaught_exception", {"case": repr(it)[:2000]}, "the code under test raised where the harness expects no exception: " + tb[-900:])
+            else:  # machinery error inside a case: surface it as a note, not a verdict
+                sub.note("internal error in case: " + tb[-600:])
+                sub.hist["internal_errors"] = sub.hist.get("internal_errors", 0) + 1
             out.append(None)
     return sub.export(), out
 
